@@ -78,7 +78,7 @@ fn main() {
             sim::write_trace(&out, &lines);
             println!("{}", json!({"summary": {"scenarios": to + 1 - from, "lines": lines.len()}}));
         }
-        "browse" | "resolve" | "flood" => {
+        "browse" | "resolve" | "flood" | "silent" | "browsew" | "resolvew" => {
             let from: u64 = a.get("from").and_then(|s| s.parse().ok()).unwrap_or(1);
             let to: u64 = a.get("to").and_then(|s| s.parse().ok()).unwrap_or(10);
             let mut lines = Vec::new();
@@ -86,6 +86,7 @@ fn main() {
                 match cmd.as_str() {
                     "browse" => lines.extend(browse::scenario(id, seed, thorough, "browse")),
                     "resolve" => lines.extend(browse::scenario_resolve(id, seed, thorough)),
+                    "silent" => lines.extend(browse::scenario_silent(id, seed, thorough)),
                     _ => lines.extend(browse::scenario_flood(id, seed, thorough)),
                 }
             }
